@@ -377,4 +377,235 @@ theorem polar_param_curv (r r1 r2 : ℝ → ℝ) (h1 : ∀ t, HasDerivAt r (r1 t
   unfold paramCurv polarCurv
   rw [e1, e2]
 
+/-! ### surfaces of revolution: mean curvature to first order -/
+
+/-- second principal curvature (along the circles of latitude) of the surface of revolution with polar profile `r(θ)` about the axis `θ = 0`:
+`n_ρ / ρ` with the outward unit normal `n = (r sin θ − r' cos θ, r cos θ + r' sin θ)/√(r² + r'²)` and `ρ = r sin θ`; `c = cot θ` -/
+noncomputable def azimCurv (r r1 c : ℝ) : ℝ := (r - r1 * c) / (r * Real.sqrt (r ^ 2 + r1 ^ 2))
+
+/-- mean curvature of that surface: half the sum of the meridian curvature (`polarCurv`, the curvature of the profile curve) and `azimCurv` -/
+noncomputable def revMeanCurv (r r1 r2 c : ℝ) : ℝ := (polarCurv r r1 r2 + azimCurv r r1 c) / 2
+
+theorem azimCurv_first_order (R u u1 c : ℝ) (hR : 0 < R) :
+    HasDerivAt (fun ε : ℝ => azimCurv (R * (1 + ε * u)) (R * (ε * u1)) c) (-(u + c * u1) / R) 0 := by
+  set N : ℝ → ℝ := fun ε => R * (1 + ε * u) - R * (ε * u1) * c with hNdef
+  set g : ℝ → ℝ := fun ε => (R * (1 + ε * u)) ^ 2 + (R * (ε * u1)) ^ 2 with hgdef
+  set r : ℝ → ℝ := fun ε => R * (1 + ε * u) with hrdef
+  have hN : HasDerivAt N (R * (u - u1 * c)) 0 := by
+    have := quad_deriv R (R * (u - u1 * c)) 0
+    have e : N = fun ε => R + R * (u - u1 * c) * ε + 0 * ε ^ 2 := by funext ε; simp only [hNdef]; ring
+    rw [e]; exact this
+  have hr : HasDerivAt r (R * u) 0 := by
+    have := quad_deriv R (R * u) 0
+    have e : r = fun ε => R + R * u * ε + 0 * ε ^ 2 := by funext ε; simp only [hrdef]; ring
+    rw [e]; exact this
+  have hg : HasDerivAt g (R ^ 2 * (2 * u)) 0 := by
+    have := quad_deriv (R ^ 2) (R ^ 2 * (2 * u)) (R ^ 2 * (u ^ 2 + u1 ^ 2))
+    have e : g = fun ε => R ^ 2 + R ^ 2 * (2 * u) * ε + R ^ 2 * (u ^ 2 + u1 ^ 2) * ε ^ 2 := by
+      funext ε; simp only [hgdef]; ring
+    rw [e]; exact this
+  have hg0 : g 0 = R ^ 2 := by simp only [hgdef]; ring
+  have hN0 : N 0 = R := by simp only [hNdef]; ring
+  have hr0 : r 0 = R := by simp only [hrdef]; ring
+  have hgne : g 0 ≠ 0 := by rw [hg0]; positivity
+  have hs : HasDerivAt (fun ε => Real.sqrt (g ε)) (R ^ 2 * (2 * u) / (2 * Real.sqrt (g 0))) 0 := hg.sqrt hgne
+  have hD : HasDerivAt (fun ε => r ε * Real.sqrt (g ε))
+      (R * u * Real.sqrt (g 0) + r 0 * (R ^ 2 * (2 * u) / (2 * Real.sqrt (g 0)))) 0 := hr.mul hs
+  have hDne : r 0 * Real.sqrt (g 0) ≠ 0 := by
+    rw [hr0, hg0, Real.sqrt_sq hR.le]; positivity
+  have key := hN.div hD hDne
+  have e : (fun ε : ℝ => azimCurv (R * (1 + ε * u)) (R * (ε * u1)) c) = fun ε => N ε / (r ε * Real.sqrt (g ε)) := by
+    funext ε; simp only [azimCurv, hNdef, hgdef, hrdef]
+  rw [e]
+  refine key.congr_deriv ?_
+  rw [hg0, hN0, hr0, Real.sqrt_sq hR.le]
+  field_simp
+  ring
+
+/-- **First-order mean curvature of a perturbed sphere of revolution**: `H[R(1 + εu)] = 1/R − ε (2u + u'' + cot θ · u')/(2R) + o(ε)`,
+pointwise in the values `u, u', u''` of the perturbation and `c = cot θ` -/
+theorem revMeanCurv_first_order (R u u1 u2 c : ℝ) (hR : 0 < R) :
+    revMeanCurv R 0 0 c = 1 / R ∧
+    HasDerivAt (fun ε : ℝ => revMeanCurv (R * (1 + ε * u)) (R * (ε * u1)) (R * (ε * u2)) c) (-(2 * u + u2 + c * u1) / (2 * R)) 0 := by
+  constructor
+  · simp only [revMeanCurv, polarCurv, azimCurv]
+    rw [show R ^ 2 + 2 * (0:ℝ) ^ 2 - R * 0 = R ^ 2 by ring, show R ^ 2 + (0:ℝ) ^ 2 = R ^ 2 by ring, Real.sqrt_sq hR.le]
+    field_simp; ring
+  · have h := ((polarCurv_first_order R u u1 u2 hR).add (azimCurv_first_order R u u1 c hR)).div_const 2
+    refine (h.congr_deriv ?_)
+    field_simp; ring
+
+
+
+/-! ### radial graphs `r(θ, φ) e_r`: mean curvature to first order -/
+
+/-- mean curvature of the radial graph `X(θ, φ) = r(θ, φ) e_r` (θ polar angle, φ azimuth), outward normal, from the fundamental forms:
+`H = −(eG − 2fF + gE) / (2(EG − F²))` with `E = r_θ² + r²`, `F = r_θ r_φ`, `G = r_φ² + r² sin²θ`, `EG − F² = r² W`,
+`W = r² sin²θ + r_θ² sin²θ + r_φ²`, and `e, f, g` the second derivatives of `X` against the normal `(r² s e_r − r r_θ s e_θ − r r_φ e_φ)/(r √W)`;
+arguments: `r` and its partial derivatives at the point, `s = sin θ`, `c = cos θ` -/
+noncomputable def radialMeanCurv (r rt rp rtt rtp rpp s c : ℝ) : ℝ :=
+  -((r * s * (r * rtt - r ^ 2 - 2 * rt ^ 2)) * (rp ^ 2 + r ^ 2 * s ^ 2)
+      - 2 * (r * (r * s * rtp - 2 * s * rt * rp - r * c * rp)) * (rt * rp)
+      + (r * s * (r * rpp - r ^ 2 * s ^ 2 + r * c * s * rt - 2 * rp ^ 2)) * (rt ^ 2 + r ^ 2))
+    / (2 * r ^ 3 * ((r ^ 2 * s ^ 2 + rt ^ 2 * s ^ 2 + rp ^ 2) * Real.sqrt (r ^ 2 * s ^ 2 + rt ^ 2 * s ^ 2 + rp ^ 2)))
+
+/-- cross-check of the two formulas: without `φ`-dependence the radial graph is the surface of revolution of its profile -/
+theorem radialMeanCurv_axisym (r rt rtt s c : ℝ) (hr : 0 < r) (hs : 0 < s) :
+    radialMeanCurv r rt 0 rtt 0 0 s c = revMeanCurv r rt rtt (c / s) := by
+  unfold radialMeanCurv revMeanCurv polarCurv azimCurv
+  have hW : r ^ 2 * s ^ 2 + rt ^ 2 * s ^ 2 + 0 ^ 2 = (r ^ 2 + rt ^ 2) * s ^ 2 := by ring
+  have hq : 0 < r ^ 2 + rt ^ 2 := by positivity
+  rw [hW, Real.sqrt_mul hq.le, Real.sqrt_sq hs.le]
+  have hsq : Real.sqrt (r ^ 2 + rt ^ 2) ≠ 0 := (Real.sqrt_pos.mpr hq).ne'
+  have hsq2 : Real.sqrt (r ^ 2 + rt ^ 2) ^ 2 = r ^ 2 + rt ^ 2 := Real.sq_sqrt hq.le
+  field_simp
+  ring_nf
+
+
+theorem affine_hasDerivAt (a b : ℝ) : HasDerivAt (fun ε : ℝ => a * (1 + ε * b)) (a * b) 0 := by
+  have := quad_deriv a (a * b) 0
+  have e : (fun ε : ℝ => a * (1 + ε * b)) = fun ε => a + a * b * ε + 0 * ε ^ 2 := by funext ε; ring
+  rw [e]; exact this
+
+theorem linear_hasDerivAt (a b : ℝ) : HasDerivAt (fun ε : ℝ => a * (ε * b)) (a * b) 0 := by
+  have := quad_deriv 0 (a * b) 0
+  have e : (fun ε : ℝ => a * (ε * b)) = fun ε => 0 + a * b * ε + 0 * ε ^ 2 := by funext ε; ring
+  rw [e]; exact this
+
+/-- **First-order mean curvature of a perturbed sphere**: `H[R(1 + εu)] = 1/R − ε (2u + Δ_S u)/(2R) + o(ε)` with the spherical Laplacian
+`Δ_S u = u_θθ + cot θ · u_θ + u_φφ / sin²θ`, pointwise in the values of `u` and its partial derivatives; `s = sin θ > 0`, `c = cos θ` -/
+theorem radialMeanCurv_first_order (R u ut up utt utp upp s c : ℝ) (hR : 0 < R) (hs : 0 < s) :
+    radialMeanCurv R 0 0 0 0 0 s c = 1 / R ∧
+    HasDerivAt (fun ε : ℝ => radialMeanCurv (R * (1 + ε * u)) (R * (ε * ut)) (R * (ε * up)) (R * (ε * utt)) (R * (ε * utp)) (R * (ε * upp)) s c)
+      (-(2 * u + (utt + c / s * ut + upp / s ^ 2)) / (2 * R)) 0 := by
+  have hRs : Real.sqrt (R ^ 2 * s ^ 2) = R * s := by
+    rw [← mul_pow, Real.sqrt_sq (mul_pos hR hs).le]
+  constructor
+  · unfold radialMeanCurv
+    rw [show R ^ 2 * s ^ 2 + (0:ℝ) ^ 2 * s ^ 2 + 0 ^ 2 = R ^ 2 * s ^ 2 by ring, hRs]
+    field_simp
+    ring
+  · set r : ℝ → ℝ := fun ε => R * (1 + ε * u) with hr
+    set rt : ℝ → ℝ := fun ε => R * (ε * ut) with hrt
+    set rp : ℝ → ℝ := fun ε => R * (ε * up) with hrp
+    set rtt : ℝ → ℝ := fun ε => R * (ε * utt) with hrtt
+    set rtp : ℝ → ℝ := fun ε => R * (ε * utp) with hrtp
+    set rpp : ℝ → ℝ := fun ε => R * (ε * upp) with hrpp
+    have dr : HasDerivAt r (R * u) 0 := affine_hasDerivAt R u
+    have drt : HasDerivAt rt (R * ut) 0 := linear_hasDerivAt R ut
+    have drp : HasDerivAt rp (R * up) 0 := linear_hasDerivAt R up
+    have drtt : HasDerivAt rtt (R * utt) 0 := linear_hasDerivAt R utt
+    have drtp : HasDerivAt rtp (R * utp) 0 := linear_hasDerivAt R utp
+    have drpp : HasDerivAt rpp (R * upp) 0 := linear_hasDerivAt R upp
+    have r0 : r 0 = R := by simp [hr]
+    have rt0 : rt 0 = 0 := by simp [hrt]
+    have rp0 : rp 0 = 0 := by simp [hrp]
+    have rtt0 : rtt 0 = 0 := by simp [hrtt]
+    have rtp0 : rtp 0 = 0 := by simp [hrtp]
+    have rpp0 : rpp 0 = 0 := by simp [hrpp]
+    -- the pieces
+    have dE := (drt.pow 2).add (dr.pow 2)
+    have dF := drt.mul drp
+    have dG := (drp.pow 2).add ((dr.pow 2).mul_const (s ^ 2))
+    have dW := (((dr.pow 2).mul_const (s ^ 2)).add ((drt.pow 2).mul_const (s ^ 2))).add (drp.pow 2)
+    have de := (dr.mul_const s).mul (((dr.mul drtt).sub (dr.pow 2)).sub ((drt.pow 2).const_mul 2))
+    have df := dr.mul (((((dr.mul_const s).mul drtp).sub (((drt.const_mul (2 * s))).mul drp))).sub ((dr.mul_const c).mul drp))
+    have dg := (dr.mul_const s).mul ((((dr.mul drpp).sub ((dr.pow 2).mul_const (s ^ 2))).add (((dr.mul_const (c * s))).mul drt)).sub ((drp.pow 2).const_mul 2))
+    have dP := ((de.mul dG).sub ((df.const_mul 2).mul dF)).add (dg.mul dE)
+    have hW0 : (r 0 ^ 2 * s ^ 2 + rt 0 ^ 2 * s ^ 2 + rp 0 ^ 2) = R ^ 2 * s ^ 2 := by rw [r0, rt0, rp0]; ring
+    have hW0ne : (r 0 ^ 2 * s ^ 2 + rt 0 ^ 2 * s ^ 2 + rp 0 ^ 2) ≠ 0 := by rw [hW0]; positivity
+    have dS := dW.sqrt hW0ne
+    have dD := ((dr.pow 3).const_mul 2).mul (dW.mul dS)
+    have hD0ne : 2 * r 0 ^ 3 * ((r 0 ^ 2 * s ^ 2 + rt 0 ^ 2 * s ^ 2 + rp 0 ^ 2) * Real.sqrt (r 0 ^ 2 * s ^ 2 + rt 0 ^ 2 * s ^ 2 + rp 0 ^ 2)) ≠ 0 := by
+      rw [hW0, hRs, r0]; positivity
+    have key := (dP.neg).div dD hD0ne
+    have e : (fun ε : ℝ => radialMeanCurv (R * (1 + ε * u)) (R * (ε * ut)) (R * (ε * up)) (R * (ε * utt)) (R * (ε * utp)) (R * (ε * upp)) s c) =
+        fun ε => radialMeanCurv (r ε) (rt ε) (rp ε) (rtt ε) (rtp ε) (rpp ε) s c := rfl
+    rw [e]
+    unfold radialMeanCurv
+    refine (key.congr_of_eventuallyEq ?_).congr_deriv ?_
+    · refine Filter.Eventually.of_forall (fun ε => ?_)
+      simp only [Pi.div_apply, Pi.add_apply, Pi.sub_apply, Pi.mul_apply, Pi.pow_apply, Pi.neg_apply]
+      ring
+    · simp only [Pi.add_apply, Pi.sub_apply, Pi.mul_apply, Pi.pow_apply, Pi.neg_apply, r0, rt0, rp0, rtt0, rtp0, rpp0]
+      rw [show R ^ 2 * s ^ 2 + (0:ℝ) ^ 2 * s ^ 2 + 0 ^ 2 = R ^ 2 * s ^ 2 by ring, hRs]
+      field_simp
+      ring
+
+/-! ### volume of a solid of revolution to first order; zonal harmonics have zero mean -/
+
+section volume
+open MeasureTheory
+
+/-- **A zonal harmonic of degree `l ≥ 1` has zero mean over the sphere**: from the eigen-equation `sin θ · Y'' + cos θ · Y' = −l(l+1) sin θ · Y`
+(Legendre's equation in the polar angle) alone, `∫₀^π Y(θ) sin θ dθ = 0` — the integrand is, up to the factor `−l(l+1)`, the derivative of
+`sin θ · Y'(θ)`, which vanishes at both poles. -/
+theorem zonal_mean_zero (Y Y1 Y2 : ℝ → ℝ) (l : ℕ) (hl : 1 ≤ l)
+    (h1 : ∀ t, HasDerivAt Y (Y1 t) t) (h2 : ∀ t, HasDerivAt Y1 (Y2 t) t) (hc : Continuous Y2)
+    (heig : ∀ t, sin t * Y2 t + cos t * Y1 t = -((l : ℝ) * (l + 1)) * (sin t * Y t)) :
+    ∫ t in (0 : ℝ)..π, Y t * sin t = 0 := by
+  have hY1c : Continuous Y1 := continuous_iff_continuousAt.mpr fun t => (h2 t).continuousAt
+  have hYc : Continuous Y := continuous_iff_continuousAt.mpr fun t => (h1 t).continuousAt
+  have hg : ∀ t, HasDerivAt (fun t => sin t * Y1 t) (cos t * Y1 t + sin t * Y2 t) t := fun t => (hasDerivAt_sin t).mul (h2 t)
+  have hint : IntervalIntegrable (fun t => cos t * Y1 t + sin t * Y2 t) volume 0 π :=
+    ((continuous_cos.mul hY1c).add (continuous_sin.mul hc)).intervalIntegrable _ _
+  have hftc := integral_eq_sub_of_hasDerivAt (fun t _ => hg t) hint
+  simp only [sin_pi, sin_zero, zero_mul, sub_zero] at hftc
+  have hrew : (fun t => cos t * Y1 t + sin t * Y2 t) = fun t => (-((l : ℝ) * (l + 1))) * (Y t * sin t) := by
+    funext t; have := heig t; linarith [this, mul_comm (sin t) (Y t)]
+  rw [hrew, intervalIntegral.integral_const_mul] at hftc
+  have hne : (-((l : ℝ) * (l + 1))) ≠ 0 := by
+    have : (0 : ℝ) < (l : ℝ) * (l + 1) := by positivity
+    linarith
+  rcases mul_eq_zero.mp hftc with h | h
+  · exact absurd h hne
+  · exact h
+
+
+/-- volume enclosed by the surface of revolution with polar profile `r(θ)` about the axis `θ = 0`: `(2π/3) ∫₀^π r³ sin θ dθ` -/
+noncomputable def revVolume (r : ℝ → ℝ) : ℝ := 2 * π / 3 * ∫ t in (0 : ℝ)..π, r t ^ 3 * sin t
+
+/-- **The volume of a perturbed sphere of revolution has no first-order term when the perturbation has zero mean**:
+`V[R(1 + εu)] = 4πR³/3 + 2πR³ ε ∫ u sin θ + O(ε²)` -/
+theorem revVolume_first_order (R : ℝ) (u : ℝ → ℝ) (hu : Continuous u) (hmean : ∫ t in (0 : ℝ)..π, u t * sin t = 0) :
+    revVolume (fun _ => R) = 4 / 3 * π * R ^ 3 ∧
+    HasDerivAt (fun ε : ℝ => revVolume (fun t => R * (1 + ε * u t))) 0 0 := by
+  have hI0 : ∫ t in (0 : ℝ)..π, sin t = 2 := by rw [integral_sin]; simp; norm_num
+  constructor
+  · unfold revVolume
+    rw [intervalIntegral.integral_const_mul, hI0]; ring
+  · have hi : ∀ k : ℕ, IntervalIntegrable (fun t => u t ^ k * sin t) volume 0 π :=
+      fun k => ((hu.pow k).mul continuous_sin).intervalIntegrable _ _
+    set I2 := ∫ t in (0 : ℝ)..π, u t ^ 2 * sin t with hI2
+    set I3 := ∫ t in (0 : ℝ)..π, u t ^ 3 * sin t with hI3
+    have hexp : ∀ ε : ℝ, revVolume (fun t => R * (1 + ε * u t)) =
+        2 * π / 3 * R ^ 3 * 2 + 0 * ε + (2 * π / 3 * R ^ 3 * (3 * I2 + ε * I3)) * ε ^ 2 := by
+      intro ε
+      unfold revVolume
+      have e : (fun t => (R * (1 + ε * u t)) ^ 3 * sin t) = fun t =>
+          R ^ 3 * (sin t) + (3 * ε * R ^ 3) * (u t * sin t) + (3 * ε ^ 2 * R ^ 3) * (u t ^ 2 * sin t) + (ε ^ 3 * R ^ 3) * (u t ^ 3 * sin t) := by
+        funext t; ring
+      have i0 : IntervalIntegrable (fun t => R ^ 3 * sin t) volume 0 π := (continuous_const.mul continuous_sin).intervalIntegrable _ _
+      have i1 : IntervalIntegrable (fun t => (3 * ε * R ^ 3) * (u t * sin t)) volume 0 π :=
+        (continuous_const.mul (hu.mul continuous_sin)).intervalIntegrable _ _
+      have i2 : IntervalIntegrable (fun t => (3 * ε ^ 2 * R ^ 3) * (u t ^ 2 * sin t)) volume 0 π := (hi 2).const_mul _
+      have i3 : IntervalIntegrable (fun t => (ε ^ 3 * R ^ 3) * (u t ^ 3 * sin t)) volume 0 π := (hi 3).const_mul _
+      rw [e, intervalIntegral.integral_add ((i0.add i1).add i2) i3, intervalIntegral.integral_add (i0.add i1) i2,
+        intervalIntegral.integral_add i0 i1]
+      simp only [intervalIntegral.integral_const_mul, hI0, hmean]
+      ring
+    have hd : HasDerivAt (fun ε : ℝ => 2 * π / 3 * R ^ 3 * 2 + 0 * ε + (2 * π / 3 * R ^ 3 * (3 * I2 + ε * I3)) * ε ^ 2) 0 0 := by
+      have h1 : HasDerivAt (fun ε : ℝ => (2 * π / 3 * R ^ 3 * (3 * I2 + ε * I3))) (2 * π / 3 * R ^ 3 * I3) 0 := by
+        have := ((hasDerivAt_id (0:ℝ)).mul_const I3).const_add (3 * I2) |>.const_mul (2 * π / 3 * R ^ 3)
+        simpa using this
+      have h2 : HasDerivAt (fun ε : ℝ => ε ^ 2) (2 * (0:ℝ)) 0 := by simpa using hasDerivAt_pow 2 (0:ℝ)
+      have h3 := (((hasDerivAt_const (0:ℝ) (2 * π / 3 * R ^ 3 * 2)).add ((hasDerivAt_id (0:ℝ)).const_mul 0))).add (h1.mul h2)
+      refine h3.congr_deriv ?_
+      simp
+    have : (fun ε : ℝ => revVolume (fun t => R * (1 + ε * u t))) = fun ε => 2 * π / 3 * R ^ 3 * 2 + 0 * ε + (2 * π / 3 * R ^ 3 * (3 * I2 + ε * I3)) * ε ^ 2 :=
+      funext hexp
+    rw [this]; exact hd
+
+end volume
+
 end DV.Fourier
